@@ -194,7 +194,8 @@ def run(facts, res):
         out = set()
         if b is None:
             return None
-        for cb in [b] + facts.closures_of(b.path):
+        from ..common import members_of as _mo0
+        for cb in _mo0(facts, b):
             for bi, t in cb.calls():
                 if t.callee is not None and t.callee.name in names:
                     for i in range(len(t.args)):
@@ -224,7 +225,8 @@ def run(facts, res):
             return out
         # decoder: prefixes of a string *value* on which unflatten dispatches
         dec = set()
-        for cb in [ufb] + facts.closures_of(ufb.path):
+        from ..common import members_of as _mo1
+        for cb in _mo1(facts, ufb):
             for bi in range(len(cb.blocks)):
                 for l in lits_of(cb, bi, facts):
                     if l.kind == "call" and l.truth is True:
@@ -415,7 +417,8 @@ def run(facts, res):
                             if x[0] == "const" and x[1] == "str":
                                 added.add(x[2])
         removed = set()
-        for cb in facts.closures_of(fl.path):
+        from ..common import members_of as _mo2
+        for cb in _mo2(facts, fl):
             for bi, t in cb.calls():
                 if t.callee is not None and t.callee.name in ("ne", "eq"):
                     for i in (0, 1):
